@@ -24,6 +24,9 @@ COMPONENTS = {
 }
 ASSUMPTIONS = ['the adversary cannot compute keyed MACs (replay is under an existing name)', 'hash collisions do not occur']
 PROBES = ['megabyte_chunks', 'same_instance_after_damage', 'same_instance_retry_after_failure', 'retry_same_cache', 'flip', 'truncate', 'extend', 'swap', 'replay', 'delete', 'pair', 'restore_raised', 'restore_ok_intact', 'restore_ok_without_damaged_snapshot', 'warm_cache']
+# a quarter of the budget runs again under `python -O` (asserts compiled out): verification must not be an assert
+ENV_VARIANT = {'PYTHONOPTIMIZE': '1'}
+VARIANT_SHARE = 0.25
 TIERS = {'quick': {'budget_s': 45, 'batch': 1}, 'thorough': {'budget_s': 900, 'batch': 2}}
 
 
